@@ -61,6 +61,9 @@ def run_c02(ctx):
 def run_c03(ctx):
     thorough = ctx.tier == "thorough"
     runs = [("plan_join", "plan_join", {"MaxOps": 4, "DbRows": 2 if thorough else 1})]
+    if thorough:
+        # two operators before and after the join (all ordered pairs of different menu entries)
+        runs.append(("plan_join_deep", "plan_join", {"MaxOps": 3, "DbRows": 1, "JoinDepth": 2}))
     tr = plan_like(ctx, "C03", runs)
     return {"exhaustive": True, "assumptions": ASSUME, "coverage": {
         "rule": "left prefix (none or one of 6 operators) x 14 joins (all kinds; bare key, explicit $left/$right equality in both "
